@@ -2,10 +2,11 @@
 # Re-evaluates every kept seeded change against the current checks: tools/eval_all_seeded.sh [tier]  -> seeded/RESULTS.txt
 cd /verif
 TIER=${1:-quick}
-OUT=/verif/seeded/RESULTS.txt
+OUT=${SEEDED_OUT:-/verif/seeded/RESULTS.txt}
 : > $OUT.tmp
-for d in seeded/C*/; do
-  name=$(basename $d)
+LIST=${SEEDED_LIST:-$(ls -d seeded/C*/ | xargs -n1 basename)}
+for name in $LIST; do
+  d=seeded/$name
   id=${name:0:3}
   log=/verif/.scratch/seeded_$name.log
   tools/eval_mutant.sh $id /verif/seeded/$name $TIER > $log 2>&1
